@@ -296,6 +296,24 @@ static int d_thread_create_userstack(void **h)
     ABT_OK(ABT_thread_attr_free(&attr));
     return rc;
 }
+static void cb18(ABT_thread t, void *arg)
+{
+    (void)t;
+    (void)arg;
+}
+static int d_thread_create_attr_cb(void **h)
+{
+    /* an attribute that carries a migration callback: the new unit gets its migration record
+     * and a key table at creation (two more allocations that can fail) */
+    ABT_thread_attr attr;
+    int rc = ABT_thread_attr_create(&attr);
+    if (rc != ABT_SUCCESS)
+        return rc;
+    ABT_OK(ABT_thread_attr_set_callback(attr, cb18, NULL));
+    rc = ABT_thread_create(target_pool(), nop_fn, NULL, attr, (ABT_thread *)h);
+    ABT_OK(ABT_thread_attr_free(&attr));
+    return rc;
+}
 static int d_task_create(void **h)
 {
     return ABT_task_create(target_pool(), nop_fn, NULL, (ABT_task *)h);
@@ -466,6 +484,20 @@ static int d_sched_create_user(void **h)
     /* no pool given: the library creates one */
     return ABT_sched_create(&def, 0, NULL, ABT_SCHED_CONFIG_NULL, (ABT_sched *)h);
 }
+static int d_sched_create_user_nullpools(void **h)
+{
+    ABT_sched_def def = { .type = ABT_SCHED_TYPE_ULT, .init = s18_init, .run = s18_run, .free = s18_free, .get_migr_pool = NULL };
+    /* null entries in the pool list: the library creates each of them */
+    ABT_pool pools[3] = { ABT_POOL_NULL, ABT_POOL_NULL, ABT_POOL_NULL };
+    return ABT_sched_create(&def, 3, pools, ABT_SCHED_CONFIG_NULL, (ABT_sched *)h);
+}
+static int d_set_main_sched_null_joined(void **h)
+{
+    /* ABT_SCHED_NULL: the library creates the default scheduler itself */
+    int rc = ABT_xstream_set_main_sched(X.jxs, ABT_SCHED_NULL);
+    *h = rc == ABT_SUCCESS ? (void *)X.jxs : POISON;
+    return rc;
+}
 static int d_xstream_create_with_rank(void **h)
 {
     return ABT_xstream_create_with_rank(ABT_SCHED_NULL, 40, (ABT_xstream *)h);
@@ -580,6 +612,7 @@ static const op18 OPS[] = {
     { "ABT_thread_create", d_thread_create, u_thread, ABT_THREAD_NULL, 0 },
     { "ABT_thread_create(stacksize)", d_thread_create_bigstack, u_thread, ABT_THREAD_NULL, 0 },
     { "ABT_thread_create(user_stack)", d_thread_create_userstack, u_thread, ABT_THREAD_NULL, 0 },
+    { "ABT_thread_create(attr with callback)", d_thread_create_attr_cb, u_thread, ABT_THREAD_NULL, 0 },
     { "ABT_task_create", d_task_create, u_thread, ABT_TASK_NULL, 0 },
     { "ABT_thread_create_many", d_thread_create_many, u_thread_many, POISON, 0 },
     { "ABT_thread_revive", d_thread_revive, u_thread_revive, POISON, 0 },
@@ -593,6 +626,8 @@ static const op18 OPS[] = {
     { "ABT_xstream_set_main_sched_basic(joined,user_pool)", d_set_main_sched_basic_joined, u_set_main_sched_joined, POISON, 2, 2 },
     { "ABT_pool_create(user_def)", d_pool_create_user, u_pool, ABT_POOL_NULL, 0, 0 },
     { "ABT_sched_create(user_def)", d_sched_create_user, u_sched, ABT_SCHED_NULL, 0, 0 },
+    { "ABT_sched_create(user_def, null pools)", d_sched_create_user_nullpools, u_sched, ABT_SCHED_NULL, 0, 0 },
+    { "ABT_xstream_set_main_sched(joined, ABT_SCHED_NULL)", d_set_main_sched_null_joined, u_set_main_sched_joined, POISON, 2, 0 },
     { "ABT_xstream_create_with_rank", d_xstream_create_with_rank, u_xstream, ABT_XSTREAM_NULL, 0, 0 },
     { "ABT_key_create", d_key_create, u_key, ABT_KEY_NULL, 0 },
     { "ABT_key_set(x24)", d_key_set_many, u_key_set_many, POISON, 0 },
